@@ -46,6 +46,7 @@ func runC13(c *Ctx, pr *PropertyRun) {
 	// refusals of malformed headers and bodies before any backend call: the
 	// dispatch table shared with C01
 	c01Dispatch(c, pr, "C13")
+	serveErrorTable(c, pr, "C13")
 
 	// a request path or Destination that does not denote a resource (NUL,
 	// not absolute after cleaning) is refused with 4xx by the sanitiser: its
